@@ -43,6 +43,17 @@ def gen_cases(tier, seed):
             c["sorted"] = True
         c["pseed"] = int(rng.integers(0, 2 ** 31))
         c["nprog"] = 40
+        pon = c["opts"].get("partition_on") or []
+        if i % 6 == 1 and pon and c["opts"].get("file_scheme") == "hive":
+            # a partition column whose name ENDS in the name of a data column (and is no identifier): conditions on the data column
+            # must not be judged against the directory values
+            datacols = [col["name"] for col in c["frame"]["cols"] if col["name"] not in pon]
+            new = ["k-", "key.", "dir "][i % 3] + datacols[i % len(datacols)]
+            for col in c["frame"]["cols"]:
+                if col["name"] == pon[0]:
+                    col["name"] = new
+            c["opts"]["partition_on"] = [new] + pon[1:]
+            c["suffix_named_partition"] = True
         cases.append(c)
     return cases
 
@@ -283,6 +294,8 @@ def run_case(case):
                 counters["unorderable"] = counters.get("unorderable", 0) + 1
                 continue
             counters["programs_judged"] = counters.get("programs_judged", 0) + 1
+            if case.get("suffix_named_partition"):
+                counters["programs_on_suffix_named_partitions"] = counters.get("programs_on_suffix_named_partitions", 0) + 1
             if pruned:
                 counters["programs_with_pruning"] = counters.get("programs_with_pruning", 0) + 1
                 counters["row_groups_pruned"] = counters.get("row_groups_pruned", 0) + len(pruned)
@@ -371,4 +384,4 @@ def coverage_extra(agg):
 
 def required(tier):
     return {"programs_judged": 3000, "programs_with_pruning": 300, "decisions_true_checked": 500, "api_reads_compared": 500,
-            "lattice_points": 1000}
+            "lattice_points": 1000, "programs_on_suffix_named_partitions": 100}
